@@ -52,6 +52,23 @@ def main():
         import scanner  # noqa
         os.environ.pop('GI_SCANNER_DISABLE_CACHE', None)
         os.environ['XDG_CACHE_HOME'] = cache
+    swap = os.environ.get('C16_SWAP')
+    if swap:
+        # a dependency GIR is replaced by another process while this scan has just read it: the history
+        # "read, then modified, then stored" of the cache (the replacement gets a later modification time)
+        target, replacement = swap.split('|')
+        import shutil
+        from giscanner import girparser
+        orig = girparser.GIRParser.parse
+
+        def parse(self, filename):
+            r = orig(self, filename)
+            if os.path.realpath(filename) == os.path.realpath(target):
+                st = os.stat(filename)
+                shutil.copyfile(replacement, filename)
+                os.utime(filename, ns=(st.st_atime_ns, st.st_mtime_ns + 5 * 10 ** 9))
+            return r
+        girparser.GIRParser.parse = parse
     xml = build(world)
     sys.stdout.write(xml)
 
